@@ -10,9 +10,9 @@
 (***************************************************************************)
 EXTENDS TraceLib
 
-VARIABLES l, run, ih, chain, top, phase, got, lastH, nextExec, fresh, maxExec, onDA, finals, cur, chunks, viol
+VARIABLES l, run, ih, chain, top, phase, got, lastH, nextExec, fresh, maxExec, onDA, finals, cur, chunks, cleanStop, viol
 
-vars == <<l, run, ih, chain, top, phase, got, lastH, nextExec, fresh, maxExec, onDA, finals, cur, chunks, viol>>
+vars == <<l, run, ih, chain, top, phase, got, lastH, nextExec, fresh, maxExec, onDA, finals, cur, chunks, cleanStop, viol>>
 
 NoB == [h |-> 0, hh |-> 0, hash |-> "?", prev |-> "?", t |-> 0, txs |-> <<>>, app |-> <<>>, appok |-> FALSE,
         dh |-> FALSE, sig |-> "none", ssig |-> "none", meta |-> "none", cid |-> FALSE, idx |-> FALSE, dc |-> "?"]
@@ -67,7 +67,7 @@ ObsChecks(o) == <<
 
 Init ==
     /\ l = 1 /\ run = "" /\ ih = 1 /\ chain = <<>> /\ top = 0 /\ phase = "" /\ got = {} /\ lastH = 0
-    /\ nextExec = 1 /\ fresh = FALSE /\ maxExec = 0 /\ onDA = {} /\ finals = {} /\ cur = 1 /\ chunks = 0 /\ viol = <<>>
+    /\ nextExec = 1 /\ fresh = FALSE /\ maxExec = 0 /\ onDA = {} /\ finals = {} /\ cur = 1 /\ chunks = 0 /\ cleanStop = FALSE /\ viol = <<>>
 
 e == Trace[l]
 Is(name) == l <= N /\ e.ev = name
@@ -77,23 +77,23 @@ Full == "node" \in DOMAIN e /\ e.node = "full"
 TReset ==
     /\ Is("Reset") /\ Adv
     /\ run' = e.run /\ ih' = e.ih /\ chain' = <<>> /\ top' = 0 /\ phase' = "" /\ got' = {} /\ lastH' = 0
-    /\ nextExec' = e.ih /\ fresh' = FALSE /\ maxExec' = e.ih - 1 /\ onDA' = {} /\ finals' = {} /\ cur' = (IF "dastart" \in DOMAIN e THEN e.dastart ELSE 1) /\ chunks' = 0
+    /\ nextExec' = e.ih /\ fresh' = FALSE /\ maxExec' = e.ih - 1 /\ onDA' = {} /\ finals' = {} /\ cur' = (IF "dastart" \in DOMAIN e THEN e.dastart ELSE 1) /\ chunks' = 0 /\ cleanStop' = FALSE
     /\ UNCHANGED viol
 
 TChain ==
     /\ Is("Chain") /\ Adv
     /\ chain' = e.blocks /\ top' = e.top
-    /\ UNCHANGED <<run, ih, phase, got, lastH, nextExec, fresh, maxExec, onDA, finals, cur, chunks, viol>>
+    /\ UNCHANGED <<run, ih, phase, got, lastH, nextExec, fresh, maxExec, onDA, finals, cur, chunks, cleanStop, viol>>
 
 TPhase ==
     /\ Is("Phase") /\ Adv /\ phase' = e.name
-    /\ UNCHANGED <<run, ih, chain, top, got, lastH, nextExec, fresh, maxExec, onDA, finals, cur, chunks, viol>>
+    /\ UNCHANGED <<run, ih, chain, top, got, lastH, nextExec, fresh, maxExec, onDA, finals, cur, chunks, cleanStop, viol>>
 
 TDeliver ==
     /\ Is("Deliver") /\ Adv
     /\ got' = IF e.via \in {"chan", "p2p", "queued", "persistent-p2p"} THEN got \cup {<<e.kind, e.h>>} ELSE got
     /\ onDA' = IF e.via \in {"da", "queued"} THEN onDA \cup {[kind |-> e.kind, h |-> e.h, dah |-> e.dah]} ELSE onDA
-    /\ UNCHANGED <<run, ih, chain, top, phase, lastH, nextExec, fresh, maxExec, finals, cur, chunks, viol>>
+    /\ UNCHANGED <<run, ih, chain, top, phase, lastH, nextExec, fresh, maxExec, finals, cur, chunks, cleanStop, viol>>
 
 TObs ==
     /\ Is("Obs") /\ Full /\ Adv
@@ -101,7 +101,7 @@ TObs ==
     /\ lastH' = MaxOf(lastH, e.height)
     /\ cur' = IF e.tag = "restart" THEN e.daCur ELSE cur
     /\ chunks' = IF e.tag = "restart" THEN 0 ELSE chunks
-    /\ UNCHANGED <<run, ih, chain, top, phase, got, nextExec, fresh, maxExec, onDA, finals>>
+    /\ UNCHANGED <<run, ih, chain, top, phase, got, nextExec, fresh, maxExec, onDA, finals, cleanStop>>
 
 TExec ==
     /\ Is("ExecTxs") /\ Full /\ Adv
@@ -114,12 +114,12 @@ TExec ==
     /\ nextExec' = IF e.ok THEN e.h + 1 ELSE nextExec
     /\ maxExec' = IF e.ok THEN MaxOf(maxExec, e.h) ELSE maxExec
     /\ fresh' = IF e.ok THEN FALSE ELSE fresh
-    /\ UNCHANGED <<run, ih, chain, top, phase, got, lastH, onDA, finals, cur, chunks>>
+    /\ UNCHANGED <<run, ih, chain, top, phase, got, lastH, onDA, finals, cur, chunks, cleanStop>>
 
 TFinal ==
     /\ Is("ExecFinal") /\ Full /\ Adv
     /\ finals' = IF e.ok THEN finals \cup {e.h} ELSE finals
-    /\ UNCHANGED <<run, ih, chain, top, phase, got, lastH, nextExec, fresh, maxExec, onDA, cur, chunks, viol>>
+    /\ UNCHANGED <<run, ih, chain, top, phase, got, lastH, nextExec, fresh, maxExec, onDA, cur, chunks, cleanStop, viol>>
 
 \* header-only node: what go-header admitted to the store it serves to light clients
 TLight ==
@@ -128,7 +128,7 @@ TLight ==
           <<"C03.LightOnlyGenuine", e.res = "admitted" => e.sig = "P" /\ e.hash = C(e.h).hash, "a header not signed by the proposer's key was admitted to the header store of a header-only node">>,
           <<"C03.LightFollows", e.class = "genuine" => e.res = "admitted", "third-party material prevented the header-only node from admitting the proposer's header">>
           >>, l, run)
-    /\ UNCHANGED <<run, ih, chain, top, phase, got, lastH, nextExec, fresh, maxExec, onDA, finals, cur, chunks>>
+    /\ UNCHANGED <<run, ih, chain, top, phase, got, lastH, nextExec, fresh, maxExec, onDA, finals, cur, chunks, cleanStop>>
 
 \* fetch history of the scan: the node must ask for exactly the cursor height; the cursor moves on after
 \* "nothing here" or after the listing and every id chunk were fetched
@@ -137,37 +137,40 @@ TGetIDs ==
     /\ viol' = viol \o Failed(<< <<"C09.ScansInOrder", e.dah = cur, "the scan examined a DA height other than the next unexamined one">> >>, l, run)
     /\ cur' = IF e.dah = cur /\ e.res = "notfound" THEN cur + 1 ELSE cur
     /\ chunks' = IF e.res \in {"ok", "okchunkerr"} THEN (e.nids + 99) \div 100 ELSE 0
-    /\ UNCHANGED <<run, ih, chain, top, phase, got, lastH, nextExec, fresh, maxExec, onDA, finals>>
+    /\ UNCHANGED <<run, ih, chain, top, phase, got, lastH, nextExec, fresh, maxExec, onDA, finals, cleanStop>>
 
 TGet ==
     /\ Is("DAGet") /\ phase = "sync" /\ Adv
     /\ chunks' = IF e.res = "ok" /\ chunks > 0 THEN chunks - 1 ELSE 0
     /\ cur' = IF e.res = "ok" /\ chunks = 1 /\ e.dah = cur THEN cur + 1 ELSE cur
-    /\ UNCHANGED <<run, ih, chain, top, phase, got, lastH, nextExec, fresh, maxExec, onDA, finals, viol>>
+    /\ UNCHANGED <<run, ih, chain, top, phase, got, lastH, nextExec, fresh, maxExec, onDA, finals, cleanStop, viol>>
 
 TCrash ==
     /\ Is("Crash") /\ Full /\ Adv
     /\ got' = {} /\ fresh' = TRUE
-    /\ UNCHANGED <<run, ih, chain, top, phase, lastH, nextExec, maxExec, onDA, finals, cur, chunks, viol>>
+    /\ UNCHANGED <<run, ih, chain, top, phase, lastH, nextExec, maxExec, onDA, finals, cur, chunks, cleanStop, viol>>
 
 \* the process was stopped without an orderly shutdown: volatile caches are gone
 TStop ==
     /\ Is("Stop") /\ Full /\ Adv
     /\ got' = IF e.clean THEN got ELSE {}
     /\ fresh' = IF e.clean THEN fresh ELSE TRUE
+    /\ cleanStop' = e.clean
     /\ UNCHANGED <<run, ih, chain, top, phase, lastH, nextExec, maxExec, onDA, finals, cur, chunks, viol>>
 
 TRestart ==
     /\ Is("Restart") /\ Full /\ Adv
     /\ viol' = viol \o Failed(<< <<"C05.RestartFailed", e.ok, "node cannot start on an image it wrote itself">> >>, l, run)
-    /\ UNCHANGED <<run, ih, chain, top, phase, got, lastH, nextExec, fresh, maxExec, onDA, finals, cur, chunks>>
+    \* a start that does not follow an orderly shutdown may re-execute the block that was in flight
+    /\ fresh' = (IF cleanStop THEN fresh ELSE TRUE) /\ cleanStop' = FALSE
+    /\ UNCHANGED <<run, ih, chain, top, phase, got, lastH, nextExec, maxExec, onDA, finals, cur, chunks>>
 
 TNodeErr ==
     /\ (Is("NodeErr") \/ Is("Panic")) /\ Full /\ Adv
     /\ viol' = viol \o Failed(<< <<"C02.Halted", FALSE, "the node halted (sync error or panic) on genuine / third-party traffic">>,
                                  <<"C03.Halted", FALSE, "the node halted (sync error or panic) on genuine / third-party traffic">> >>, l, run)
     /\ got' = {} /\ fresh' = TRUE
-    /\ UNCHANGED <<run, ih, chain, top, phase, lastH, nextExec, maxExec, onDA, finals, cur, chunks>>
+    /\ UNCHANGED <<run, ih, chain, top, phase, lastH, nextExec, maxExec, onDA, finals, cur, chunks, cleanStop>>
 
 TQuiesce ==
     /\ Is("Quiesce") /\ Adv
@@ -177,14 +180,14 @@ TQuiesce ==
           <<"C03.Converged", (e.up /\ e.height = e.top) \/ (e.up /\ AliasStall(e.height)), "third-party material prevented the node from following the proposer's chain">>,
           <<"C02.Converged.alias", ~(e.up /\ e.height < e.top /\ AliasStall(e.height)), "stuck below a block whose tx list equals another block's (data de-duplicated by commitment)">>
           >>, l, run)
-    /\ UNCHANGED <<run, ih, chain, top, phase, got, lastH, nextExec, fresh, maxExec, onDA, finals, cur, chunks>>
+    /\ UNCHANGED <<run, ih, chain, top, phase, got, lastH, nextExec, fresh, maxExec, onDA, finals, cur, chunks, cleanStop>>
 
 TOther ==
     /\ l <= N /\ Adv
     /\ ~(e.ev \in {"Reset", "Chain", "Phase", "Deliver", "Quiesce", "LightOffer"})
     /\ ~(e.ev \in {"DAGetIDs", "DAGet"} /\ phase = "sync")
     /\ ~(Full /\ e.ev \in {"Obs", "ExecTxs", "Crash", "Restart", "NodeErr", "Panic", "Stop", "ExecFinal"})
-    /\ UNCHANGED <<run, ih, chain, top, phase, got, lastH, nextExec, fresh, maxExec, onDA, finals, cur, chunks, viol>>
+    /\ UNCHANGED <<run, ih, chain, top, phase, got, lastH, nextExec, fresh, maxExec, onDA, finals, cur, chunks, cleanStop, viol>>
 
 Next == TGetIDs \/ TGet \/ TLight \/ TFinal \/ TStop \/ TReset \/ TChain \/ TPhase \/ TDeliver \/ TObs \/ TExec \/ TCrash \/ TRestart \/ TNodeErr \/ TQuiesce \/ TOther
 Spec == Init /\ [][Next]_vars
